@@ -621,7 +621,9 @@ def run(model: Model, rep, tier: str) -> None:
     rep.rule("C09-R2", "nodal elements: phi_i(dofloc_j) = delta_ij")
     rep.rule("C09-R3", "value-type functions sum to one identically")
     rep.rule("C09-R4", "lowest-order H(div)/H(curl): facet flux / edge "
-             "circulation of phi_i over entity k is +-delta_ik")
+             "circulation of phi_i over entity k is +-delta_ik; ElementTriN3: "
+             "the function delivered by gbasis for index i is dual to the "
+             "point functional at doflocs[i], both edge orientations")
     rep.rule("C09-R5", "gbasis applies the family's Piola map (canonical "
              "einsum signature + scalar factor), shared- and per-cell-point "
              "branches alike, for the requested cell subset")
@@ -743,12 +745,15 @@ def run(model: Model, rep, tier: str) -> None:
         raise AnalysisError(f"frozen rule instances vanished: {missing}")
     _check_mapping(model, rep)
     _trin3_siblings(model, rep)
+    if "ElementTriN3" not in els or els["ElementTriN3"].basis is None:
+        raise AnalysisError("ElementTriN3 not translated")
+    _trin3_point_duality(model, rep, els["ElementTriN3"])
     _wrappers(model, rep)
     _layout_dependence(model, rep)
     rep.require_min("C09-R1", 240)
     rep.require_min("C09-R2", 20)
     rep.require_min("C09-R3", 28)
-    rep.require_min("C09-R4", 7)
+    rep.require_min("C09-R4", 9)
     rep.require_min("C09-R5", 30)
 
 
@@ -931,6 +936,229 @@ def _duality(rep, e: ElementInfo, name, path, ln):
                  f"off)", ln)
 
 
+class _LC:
+    """Linear combination of local functions (value or curl channel) - the
+    abstract value of a mapped field on the reference cell."""
+    def __init__(self, t):
+        self.t = {k: v for k, v in t.items() if v != 0}
+
+    def skv_neg(self):
+        return _LC({k: -v for k, v in self.t.items()})
+
+    def skv_getitem(self, ix):
+        return self
+
+    def skv_binop(self, op, o, swapped):
+        if isinstance(o, _Sgn):
+            o = o.v
+        if isinstance(o, _LC):
+            keys = set(self.t) | set(o.t)
+            if isinstance(op, ast.Add):
+                return _LC({k: self.t.get(k, 0) + o.t.get(k, 0)
+                            for k in keys})
+            if isinstance(op, ast.Sub):
+                a, b = (o, self) if swapped else (self, o)
+                return _LC({k: a.t.get(k, 0) - b.t.get(k, 0) for k in keys})
+            raise Unsupported("product of two local functions")
+        if isinstance(o, (int, float, Fraction)):
+            o = Fraction(o)
+            if isinstance(op, ast.Mult):
+                return _LC({k: v * o for k, v in self.t.items()})
+            if isinstance(op, ast.Div) and not swapped and o != 0:
+                return _LC({k: v / o for k, v in self.t.items()})
+        raise Unsupported(f"local function {type(op).__name__} "
+                          f"{type(o).__name__}")
+
+
+class _Sgn:
+    """One concrete value of the per-cell orientation sign (or of a mask
+    derived from it by a comparison)."""
+    def __init__(self, v):
+        self.v = Fraction(v)
+
+    def skv_getitem(self, ix):
+        return self
+
+    def skv_neg(self):
+        return _Sgn(-self.v)
+
+    def skv_compare(self, op, o):
+        import operator
+        f = {ast.Gt: operator.gt, ast.Lt: operator.lt, ast.GtE: operator.ge,
+             ast.LtE: operator.le, ast.Eq: operator.eq,
+             ast.NotEq: operator.ne}.get(type(op))
+        if f is None or not isinstance(o, (int, float, Fraction)):
+            raise Unsupported("comparison of the orientation sign")
+        return _Sgn(1 if f(self.v, o) else 0)
+
+    def skv_binop(self, op, o, swapped):
+        if isinstance(o, _LC):
+            return o.skv_binop(op, self, not swapped)
+        ov = o.v if isinstance(o, _Sgn) else o
+        if not isinstance(ov, (int, float, Fraction)):
+            raise Unsupported("arithmetic on the orientation sign")
+        ov = Fraction(ov)
+        a, b = (ov, self.v) if swapped else (self.v, ov)
+        if isinstance(op, ast.Mult):
+            return _Sgn(a * b)
+        if isinstance(op, ast.Add):
+            return _Sgn(a + b)
+        if isinstance(op, ast.Sub):
+            return _Sgn(a - b)
+        if isinstance(op, ast.Div) and b != 0:
+            return _Sgn(a / b)
+        raise Unsupported("arithmetic on the orientation sign")
+
+    def skv_getattr(self, name):
+        if name == "astype":
+            return PyFunc(lambda a, k, n: self)
+        raise Unsupported(f"attribute {name} of the orientation sign")
+
+
+def _trin3_delivered(model, i: int, sign: int):
+    """ElementTriN3.gbasis interpreted on the reference cell (DF = I) for the
+    concrete local index ``i`` and the concrete orientation sign: which
+    combination of the local functions is delivered."""
+    cls = model.cls("skfem.element.element_tri.element_tri_n3",
+                    "ElementTriN3")
+    fn = cls.methods.get("gbasis")
+    if fn is None:
+        raise AnalysisError("ElementTriN3.gbasis not found")
+
+    class XArg:
+        shape = (2, PTS)
+
+    class Mapping:
+        pass
+    X, mp = XArg(), Mapping()
+
+    def attr_hook(interp, o, name, node):
+        if o is X and name == "shape":
+            return X.shape
+        if o is mp and name in ("invDF", "DF"):
+            return PyFunc(lambda a, k, n: "<identity>")
+        if o is mp and name == "detDF":
+            return PyFunc(lambda a, k, n: 1)
+        return NotImplemented
+
+    def call_hook(interp, name, args, kwargs, node):
+        if name.endswith("DiscreteField"):
+            return {"__fields__": kwargs}
+        if name == "numpy.einsum":
+            ops = list(args[1:])
+            lcs = [a for a in ops if isinstance(a, _LC)]
+            if len(lcs) != 1 or any(not isinstance(a, (_LC, _Sgn))
+                                    and a != "<identity>" for a in ops):
+                raise Unsupported("einsum operands")
+            out = lcs[0]
+            for a in ops:
+                if isinstance(a, _Sgn):
+                    out = out.skv_binop(ast.Mult(), a, False)
+            return out
+        return NotImplemented
+    it = Interp(model, attr_hook=attr_hook, call_hook=call_hook)
+    obj = Obj(cls)
+    obj.attrs["lbasis"] = PyFunc(lambda a, k, n: (_LC({a[1]: 1}),
+                                                 _LC({a[1]: 1})))
+    obj.attrs["orient"] = PyFunc(lambda a, k, n: _Sgn(sign))
+    try:
+        r = it.call(fn, [mp, X, i, None], {}, self_obj=obj)
+    except Raised as e:
+        raise AnalysisError(f"ElementTriN3.gbasis raises for i={i}: {e.what}")
+    except Unsupported as e:
+        raise AnalysisError(f"ElementTriN3.gbasis outside grammar: {e}")
+    try:
+        f = r[0]["__fields__"]
+        val, curl = f["value"], f["curl"]
+    except (TypeError, KeyError, IndexError):
+        raise AnalysisError("ElementTriN3.gbasis does not return a "
+                            "DiscreteField with value and curl")
+    if not isinstance(val, _LC) or not isinstance(curl, _LC):
+        raise AnalysisError("ElementTriN3.gbasis: delivered fields are not "
+                            "combinations of local functions")
+    return val, curl
+
+
+def _trin3_point_duality(model, rep, e: ElementInfo):
+    """ElementTriN3 is point-nodal: tangential component at three points of
+    every edge, x / y component at interior points, the points published in
+    ``doflocs``.  The overridden gbasis exchanges and negates edge functions
+    depending on the orientation sign.  Decided here, exactly: the function
+    *delivered* for local index i (gbasis interpreted on the reference cell
+    for each concrete sign) is dual to the functional at ``doflocs[i]`` -
+    in the standard orientation along first -> second vertex of the edge;
+    on a reversed edge the k-th function belongs to the k-th point counted
+    from the other end, with the opposite tangent (so that both neighbours
+    of the edge deliver the same trace)."""
+    R4 = "C09-R4"
+    rd = e.refdom
+    path = e.cls.path
+    per = e.counts["facet_dofs"]
+    nf = rd.nfacets
+    nedge = per * nf
+    if e.doflocs is None or len(e.doflocs) != e.nbfun or \
+            e.dofnames is None:
+        raise AnalysisError("ElementTriN3: doflocs / dofnames not found")
+    inner = e.dofnames[per:]
+    if len(inner) < e.nbfun - nedge or any(
+            n not in ("u^x", "u^y") for n in inner[:e.nbfun - nedge]):
+        raise AnalysisError(f"ElementTriN3: interior dofnames {inner}")
+
+    def direction(k, sign):
+        if k < nedge:
+            a, b = rd.facets[k // per]
+            return [sign * (rd.p[b][d] - rd.p[a][d]) for d in range(2)]
+        return [1, 0] if inner[k - nedge] == "u^x" else [0, 1]
+
+    def functional(k, sign, lc):
+        pt = tuple(Fraction(x) for x in e.doflocs[k])
+        t = direction(k, sign)
+        tot = Fraction(0)
+        for j, c in lc.t.items():
+            v = subs_point(e.basis[j][0], pt)
+            tot += c * sum(Fraction(v.flat()[d]) * t[d] for d in range(2))
+        return tot
+    gb = e.cls.find_method("gbasis")
+    for sign, label in ((1, "standard"), (-1, "reversed")):
+        bad = []
+        for i in range(e.nbfun):
+            s_i = sign if i < nedge else 1
+            val, curl = _trin3_delivered(model, i, s_i)
+            if val.t != curl.t:
+                bad.append((i, i, f"value {val.t} and curl {curl.t} are "
+                                  f"different combinations"))
+                continue
+            for k in range(e.nbfun):
+                # the functional that local index i must be dual to
+                if k < nedge and sign < 0:
+                    own = (k // per == i // per and i < nedge
+                           and k % per == per - 1 - i % per)
+                    s_k = -1
+                else:
+                    own, s_k = (k == i), 1
+                if sign < 0 and k < nedge and i < nedge and \
+                        k // per != i // per:
+                    s_k = 1   # another edge's sign is irrelevant: must be 0
+                got = functional(k, s_k, val)
+                if got != (1 if own else 0):
+                    bad.append((i, k, got))
+        cons = f"ElementTriN3:point-duality[{label}]"
+        if not bad:
+            rep.ok(R4, cons, f"{e.nbfun}x{e.nbfun}: the function delivered "
+                   f"for index i is dual to the point functional at "
+                   f"doflocs[i] ({label} edge orientation)", sample=True)
+        else:
+            i, k, got = bad[0]
+            rep.fail(R4, path, "ElementTriN3", cons,
+                     f"{label} edge orientation: the function delivered for "
+                     f"local index {i} gives {got} under the functional at "
+                     f"doflocs[{k}] = {tuple(str(x) for x in e.doflocs[k])} "
+                     f"(expected {1 if (i == k and sign > 0) else 'delta'}); "
+                     f"{len(bad)} entries off - gbasis' exchange of edge "
+                     f"functions and the published DOF locations disagree",
+                     gb.lineno if gb else e.cls.node.lineno)
+
+
 # ----------------------------------------------------------------------
 _E = "skfem/element/"
 MUTANTS = [
@@ -943,6 +1171,26 @@ MUTANTS = [
      ("skfem/element/element_tri/element_tri_n3.py",
       "            curl_B = dphi_B / detDF * orient[:, None]",
       "            curl_B = dphi_B / detDF"), "C09-R5"),
+    ("TriN3: DOF locations of the third edge listed downwards again",
+     ("skfem/element/element_tri/element_tri_n3.py",
+      "            [0.0, 0.25],\n            [0.0, 0.50],\n"
+      "            [0.0, 0.75],\n",
+      "            [0.0, 0.75],\n            [0.0, 0.50],\n"
+      "            [0.0, 0.25],\n"), "C09-R4"),
+    ("TriN3: third edge exchanged on reversed orientation like the others",
+     ("skfem/element/element_tri/element_tri_n3.py",
+      "                swap_condition = 1  # Swap if orient > 0",
+      "                swap_condition = -1  # Swap if orient > 0"), "C09-R4"),
+    ("TriN3: downward definition of the third edge not negated",
+     ("skfem/element/element_tri/element_tri_n3.py",
+      "                return -p, -dp", "                return p, dp"),
+     "C09-R4"),
+    ("TriN3: exchange of the first two edges dropped",
+     ("skfem/element/element_tri/element_tri_n3.py",
+      "            if edge_idx in [0, 1]:\n                if local_idx == 0:\n"
+      "                    target_swap = i + 2",
+      "            if edge_idx in [0, 1]:\n                if local_idx == 9:\n"
+      "                    target_swap = i + 2"), "C09-R4"),
     ("power basis: repeated z-derivatives use a constant factor",
      ("skfem/element/element_global.py",
       "                    cz *= k - dz + l", "                    cz *= k - "
@@ -1042,6 +1290,14 @@ MUTANTS = [
       "DF, phi, DF,"), "C09-R5"),
 ]
 TWINS = [
+    ("TriN3: mask written with the other comparison",
+     ("skfem/element/element_tri/element_tri_n3.py",
+      "                mask = (orient < 0).astype(np.float64)",
+      "                mask = (orient <= -1).astype(np.float64)")),
+    ("TriN3: masked combination written as B + mask * (A - B)",
+     ("skfem/element/element_tri/element_tri_n3.py",
+      "            val_final = val_A * mask_val + val_B * (1.0 - mask_val)",
+      "            val_final = val_B + mask_val * (val_A - val_B)")),
     ("einsum indices renamed",
      (_E + "element_h1.py", "'ijkl,il->jkl'", "'abcd,ad->bcd'")),
     ("einsum operands exchanged",
